@@ -16,6 +16,7 @@ CONSTANTS
   BugDoubleStore = FALSE
   BugNoCloseUnclean = FALSE
   FixStreamCtxStore = FALSE
+  BugKeepAbandoned = FALSE
   Emit = FALSE
   WarmChoices = {FALSE}
 INVARIANTS TypeOK StreamStoreExactlyOnce SessionIsolated Exclusive RejectAfterRelease MarkedWhenReleased CleanOnReturn
